@@ -244,7 +244,7 @@ func (ex *Exec) tryMerge(fr *frame, b *ssa.BasicBlock, c *smt.Term, j *ssa.Basic
 		fr.defers = fr.defers[:defersMark]
 		fr.visits = visits
 		ex.solver.Pop(ex.solver.Depth() - depthMark)
-		ex.pc = ex.pc[:pcMark]
+		ex.truncPC(pcMark)
 		ex.decided = append(ex.decided[:decMark], trailNoMerge)
 		ex.pos = posMark + 1
 		ex.eval = savedEval
@@ -283,7 +283,7 @@ func (ex *Exec) tryMerge(fr *frame, b *ssa.BasicBlock, c *smt.Term, j *ssa.Basic
 			}
 		}
 		ex.solver.Pop(ex.solver.Depth() - depthMark)
-		ex.pc = ex.pc[:pcMark]
+		ex.truncPC(pcMark)
 		ex.guards = ex.guards[:guardMark]
 		ex.eval = savedEval
 		return from
@@ -462,4 +462,17 @@ func (ex *Exec) bothFeasible(c *smt.Term) bool {
 		}
 	}
 	return ex.feasible(c) == smt.Sat && ex.feasible(ex.ctx.Not(c)) == smt.Sat
+}
+
+// truncPC shortens the path condition and forgets literals asserted beyond the mark.
+func (ex *Exec) truncPC(mark int) {
+	if len(ex.pc) == mark {
+		return
+	}
+	ex.pc = ex.pc[:mark]
+	for k, v := range ex.pcLits {
+		if v > mark || -v > mark {
+			delete(ex.pcLits, k)
+		}
+	}
 }
